@@ -39,6 +39,28 @@ CHECKS = {
          "the model (result, error text/line, full tree with source lines)."),
    note=TB + "Which semantic error is reported first and which tree an accepted text denotes are decided by exhaustive-to-bound correspondence (quick: length 6, thorough: 9) and the model-as-specification, not by a grammar-level theorem; when a translated action or table changes, the failing-input search runs against the model over the committed reference translation; known findings C02:string-element-mismatch-line and C02:parser-stack-limit are reproduced by the model.",
    technique='LR soundness and completeness theorems over translated LALR tables (kernel-decided certificate checks + loop invariants) in Lean 4; exhaustive-to-bound correspondence against an independent grammar recogniser', ref='§5 C02'),
+ 'C03': dict(
+   text=("Partial. 42 theorems about the part of the property that is logic. No stray output: C03_no_echo / C03_read_no_echo — for any "
+         "bytes, through any include files, yylex over the translated tables never takes flex's default ECHO rule (the only action "
+         "that writes to stdout). No process exit: the outcome type of a read has no exit case; C03_actions_known (no unrecognised "
+         "scanner/parser action, EOF action and helper macros catalogued); C03_input_override + C03_failing_read (the translated "
+         "scanner.c carries the YY_INPUT override, so a failing fread — flex's only reachable exit(2) — is an ordinary failure with "
+         "the file-I/O error record; C03_failing_stream_wf/_file_wf: and leaves a well-formed tree); C03_crash_only_from_actions. "
+         "Generated tables, by kernel evaluation over what scanner.c/grammar.c contain now: every table access of the flex chase "
+         "(all states x classes) and of the LALR loop is in range, the default chain ends within its fuel, C03_lalr_states (every "
+         "parser state along every run is < 47), C03_no_error_shift. Bounded recursion: yyparseLoop is the iteration of a one-step "
+         "function; C03_stack_bounded (never more than the documented 10000 entries), C03_stack_limit (then 'memory exhausted'). "
+         "Container arithmetic for every operation sequence, parametric in the chunk constants: strbuf (length+len+1 <= capacity, the "
+         "& ~63 form = arithmetic rounding), strvec, child vectors (store index inside the allocation after any adds/removes), "
+         "libconfig_format_double (never more than buflen bytes). Termination of the scanner: every match consumes >= 1 byte; "
+         "C03_lex_fuel. Usable afterwards: C04_read (well-formed whatever was read). What Lean cannot decide — memory errors, UB, "
+         "leaks, hangs in the C code — is VALIDATED, not proved: one harness under ASan+UBSan+LSan with exit()/stdout/stderr traps and "
+         "a per-op alarm runs grammar-derived texts, coverage-guided mutants, sizes 0..40 KiB across the 8/16/32 KiB boundaries, "
+         "tokens longer than the buffer, unterminated constructs, NUL bytes, hostile includes (missing, directory, self, mutual, "
+         "12-chains, 31..70 files), nesting to 12000 levels, failing streams/files; every read is followed by the "
+         "traverse/lookup/write/remove/modify/re-read/destroy battery and compared with the model."),
+   note=TB + "PARTIAL: C memory safety, leaks inside generated code and hangs are observed on executed paths only. Not proved: the parser loop's own fuel bound (no epsilon-reduction loop), stack underflow freedom on reductions. Three defects repaired (directory include -> exit(2); lone backslash in INCLUDE mode -> ECHO; failing fread -> exit(2)).",
+   technique='kernel-decided table-safety, stack-bound, container-arithmetic and no-echo/no-exit theorems in Lean 4 over translated tables + sanitizer battery on coverage-guided mutations (validation)', ref='§5 C03'),
  'C04': dict(
    text=("Theorems: C04_step_all — EVERY operation of the API alphabet, reads included, with arbitrary arguments, succeeding or failing, "
          "preserves the well-formedness invariant (root nameless group; distinct valid member names; nameless list/array elements; arrays "
@@ -227,7 +249,7 @@ CHECKS = {
    technique='structural-induction theorems about the writer model in Lean 4 + byte-exact differential correspondence', ref='§5 C19'),
 }
 
-READY = ['C01', 'C02', 'C04', 'C05', 'C06', 'C07', 'C08', 'C09', 'C10', 'C11', 'C12', 'C13', 'C14', 'C15', 'C16', 'C17', 'C18', 'C19', 'C20']
+READY = ['C01', 'C02', 'C03', 'C04', 'C05', 'C06', 'C07', 'C08', 'C09', 'C10', 'C11', 'C12', 'C13', 'C14', 'C15', 'C16', 'C17', 'C18', 'C19', 'C20']
 NOT_YET = "check under construction in this round (model part exists, no registered check yet); see DESIGN.md §9"
 
 def main():
